@@ -158,6 +158,14 @@ func (u *Unit) Run() {
 		}
 		u.addOblNamed(st, "structure", "structure/defers-before", "`defer "+a+"` is registered before `defer "+b+"` (so "+b+" runs first)", fn.Pos(), BoolLit(ia >= 0 && ib >= 0 && ia < ib))
 	}
+	if fn.Synthetic == "package initializer" && fn.Pkg != nil {
+		// the run that matters is the first one: the guard is still down
+		if g, ok := fn.Pkg.Members["init$guard"].(*ssa.Global); ok {
+			if gp, isT := u.val(nil, st, g).(*Term); isT {
+				u.storeVal(st, types.Typ[types.Bool], gp, False)
+			}
+		}
+	}
 	exit, results := u.execBody(fr, st)
 	for k, n := range u.atApplied {
 		if n == 0 {
@@ -176,12 +184,19 @@ func (u *Unit) Run() {
 		penv.results = []Val{}
 	}
 	u.applyGhostSets(ct, penv, exit)
-	for i, e := range ct.Ensures {
-		name := fmt.Sprintf("post#%d", i+1)
-		if e.Label != "" {
-			name = "post#" + e.Label
+	if ct.Flags["boundary"] != "" && len(ct.Ensures) > 0 {
+		// the function is the boundary to an external system (a database): its ensures
+		// describe that system's answer and are assumed at call sites, not proved from the
+		// body; what it sends (at-call assertions), its frame and its checks are proved
+		u.note("boundary function " + shortName(funcKey(fn)) + ": its ensures clauses describe the external system and are assumed, not proved")
+	} else {
+		for i, e := range ct.Ensures {
+			name := fmt.Sprintf("post#%d", i+1)
+			if e.Label != "" {
+				name = "post#" + e.Label
+			}
+			u.addOblNamed(exit, "post", name, "postcondition: "+e.Src, fn.Pos(), u.evalBoolF(penv, exit, e.Expr))
 		}
-		u.addOblNamed(exit, "post", name, "postcondition: "+e.Src, fn.Pos(), u.evalBoolF(penv, exit, e.Expr))
 	}
 	for i, e := range ct.Checks {
 		name := fmt.Sprintf("post#check.%d", i+1)
